@@ -591,7 +591,9 @@ impl Context {
                     + m::nl();
             }
 
-            if let Ok((_, results)) = self.interpret(keyword, CodeSource::Internal) {
+            // Evaluate the variable on a copy of the session: `info` is a read-only
+            // command and must not change `ans`/`_` (or anything else).
+            if let Ok((_, results)) = self.clone().interpret(keyword, CodeSource::Internal) {
                 help += m::nl()
                     + results.to_markup(
                         None,
